@@ -31,7 +31,7 @@ from .. import entropy, rngseam, catalog
 from pybrops.core.random import prng
 
 PROP = "C08"
-RUNS = {"quick": 5000, "thorough": 120000}
+RUNS = {"quick": 12000, "thorough": 120000}
 WALL = {"quick": 200, "thorough": 2400}
 RUN_TIMEOUT = 120
 RULE = ("scenario = clause A: program of 1-8 catalogue calls (prng wrappers, spawn, 7 mating protocols, phenotyping, 8 selection "
